@@ -133,7 +133,23 @@ def check_C03(run):
              acts=['write', 'delete', 'restart', 'force_update', 'create_active', 'close_active', 'restore_active'],
              restarts_set=store.restarts(), nkeys=2, simulate=300 if q else 20000, workers=1 if q else 8),
     ]
-    return store_check(run, mc, suites)
+
+    def forced(run, eng):
+        # restart equivalence under the one schedule in which the blob order of a session can differ from the order of
+        # the ids: the worker installs a blob it prepared before a client created a newer one (finding F22)
+        for rep in range(1 if q else 3):
+            out = os.path.join(run.work, 'late-install-%d.out' % rep)
+            rc = subprocess.run([os.path.join(BIN, 'workerck'), '--scenario', 'late-install', '--out', os.path.join(run.work, 'late-install-%d.ndjson' % rep)],
+                                stdout=open(out, 'w'), stderr=open(out + '.err', 'w')).returncode
+            if rc != 0:
+                raise ToolError('workerck failed rc=%s (%s)' % (rc, out))
+            for line in open(out, errors='replace'):
+                if line.startswith('MISMATCH '):
+                    rec = json.loads(line[9:])
+                    run.violation('C03', rec, 'forced schedule late-install: %s' % json.dumps(rec['mismatches'][0])[:400])
+            eng.replayed += 1
+        run.log('forced schedule late-install executed')
+    return store_check(run, mc, suites, extra=forced)
 
 
 LIFE_ALL = ['close_active', 'create_active', 'restore_active', 'force_update', 'close_bg', 'create_bg',
